@@ -496,6 +496,8 @@ class Spec:
     #: abstract types that are enumerations with decidable equality (e.g. an `enum.Enum` modelled as
     #: a Lean inductive): `==` between their values is Lean's `==`
     eq_types: list = field(default_factory=list)
+    #: abstract types whose `==` is a function handed to the translation: {type: Lean function name}
+    eq_fns: dict = field(default_factory=dict)
     #: {abstract type name: Fn}: calling a local variable of that type, `f(args)` (the Fn takes f first)
     callables: dict = field(default_factory=dict)
     #: translate only a prefix of the function: (source text of a statement - as `ast.unparse` prints
@@ -511,6 +513,10 @@ class Spec:
     canon_not_if: bool = True
     #: parameters of shared continuations (`k1_ …`) in a canonical order (see stmt_if_joined)
     canon_join_order: bool = True
+    #: loop state (locals) in the order of first assignment in the function
+    canon_loop_order: bool = False
+    #: `s.find(x) >= 0` / `!= -1` / `> -1` are spelled like `x in s` (and `== -1` / `< 0` like `x not in s`)
+    canon_find: bool = False
     #: model-only locals with their initial value {name: (Lean term, type text)}: flags written by
     #: declared effects (e.g. "the environ entry wsgi.input_terminated was set")
     init_locals: dict = field(default_factory=dict)
@@ -629,6 +635,8 @@ class Var:
     iter_of: str | None = None
     exhausted: bool = False
     index_name: str | None = None
+    #: for a variable narrowed to None by a case split: its declared (Optional) type
+    was: object = None
 
 
 @dataclass
@@ -649,6 +657,76 @@ class LoopCtx:
     parent: object = None
     #: Lean type of the auxiliary definition's result
     result_ty: str | None = None
+
+
+
+# --------------------------------------------------------------------------
+# templates: source texts of a Spec (effect keys, static keys, stop_at, pattern texts) may contain
+# metavariables `$x` standing for an arbitrary *name* (the same name at every occurrence): the Spec
+# then does not depend on how the function's locals are called
+
+
+def _template_ast(text: str, stmt: bool):
+    import re as _re
+
+    src = _re.sub(r"\$([A-Za-z_][A-Za-z0-9_]*)", r"MV_\1_", text)
+    tree = ast.parse(src, mode="exec" if stmt else "eval")
+    return tree.body[0] if stmt else tree.body
+
+
+def _tcompare(t, n, binds) -> bool:
+    if isinstance(t, ast.Name) and t.id.startswith("MV_") and t.id.endswith("_"):
+        if not isinstance(n, ast.Name):
+            return False
+        key = t.id[3:-1]
+        if key in binds:
+            return binds[key] == n.id
+        binds[key] = n.id
+        return True
+    if type(t) is not type(n):
+        return False
+    for f in t._fields:
+        if f in ("ctx", "type_comment", "kind"):
+            continue
+        a, b = getattr(t, f, None), getattr(n, f, None)
+        if isinstance(a, list):
+            if not isinstance(b, list) or len(a) != len(b):
+                return False
+            for x, y in zip(a, b):
+                if isinstance(x, ast.AST):
+                    if not isinstance(y, ast.AST) or not _tcompare(x, y, binds):
+                        return False
+                elif x != y:
+                    return False
+        elif isinstance(a, ast.AST):
+            if not isinstance(b, ast.AST) or not _tcompare(a, b, binds):
+                return False
+        elif a != b:
+            return False
+    return True
+
+
+def template_match(text: str, node):
+    """{metavariable: actual name} when `node` (an expression, or a statement) is the template `text`
+    up to the names the metavariables stand for, else None. A text without `$` matches by its
+    `ast.unparse` text."""
+    if "$" not in text:
+        try:
+            return {} if ast.unparse(node) == text else None
+        except Exception:  # noqa: BLE001
+            return None
+    try:
+        t = _template_ast(text, isinstance(node, ast.stmt))
+    except SyntaxError:
+        return None
+    binds = {}
+    return binds if _tcompare(t, node, binds) else None
+
+
+def template_subst(text: str, binds: dict) -> str:
+    import re as _re
+
+    return _re.sub(r"\$([A-Za-z_][A-Za-z0-9_]*)", lambda m: binds.get(m.group(1), m.group(0)), text)
 
 
 class Translator:
@@ -736,6 +814,42 @@ class Translator:
                 return node
 
         fn = _Casts().visit(fn)
+        # keys of the form "#k" (in `locals`, `maybe_unbound`, `in_ops`; `#k` inside `stop_at`): the k-th
+        # local in order of first assignment (the Spec then does not depend on how the local is called)
+        a_ = fn.args
+        pnames = {x.arg for x in a_.posonlyargs + a_.args + a_.kwonlyargs} | ({a_.vararg.arg} if a_.vararg else set()) | ({a_.kwarg.arg} if a_.kwarg else set())
+        stores = sorted(
+            (x for st_ in fn.body for x in ast.walk(st_) if isinstance(x, ast.Name) and isinstance(x.ctx, ast.Store) and x.id not in pnames),
+            key=lambda x: (x.lineno, x.col_offset),
+        )
+        order_ = []
+        for x in stores:
+            if x.id not in order_:
+                order_.append(x.id)
+        self.local_order = order_
+        self.returned_names = {x.value.id for st_ in fn.body for x in ast.walk(st_) if isinstance(x, ast.Return) and isinstance(x.value, ast.Name)}
+
+        def _resolve(d):
+            out = {}
+            for k_, v_ in d.items():
+                if k_.startswith("#"):
+                    i_ = int(k_[1:]) - 1
+                    if i_ >= len(order_):
+                        raise Untranslatable(f"{self.where}: the spec refers to local {k_}, the function has {len(order_)} locals")
+                    out[order_[i_]] = v_
+                else:
+                    out[k_] = v_
+            return out
+
+        if any(k_.startswith("#") for d_ in (spec.locals, spec.maybe_unbound, spec.in_ops) for k_ in d_) or (spec.stop_at and "#" in spec.stop_at[1]):
+            import dataclasses as _dc
+            import re as _re
+
+            stop_ = spec.stop_at
+            if stop_ and "#" in stop_[1]:
+                stop_ = (stop_[0], _re.sub(r"#(\d+)", lambda m: order_[int(m.group(1)) - 1] if int(m.group(1)) <= len(order_) else m.group(0), stop_[1]))
+            spec = _dc.replace(spec, locals=_resolve(spec.locals), maybe_unbound=_resolve(spec.maybe_unbound), in_ops=_resolve(spec.in_ops), stop_at=stop_)
+            self.spec = spec
         if fn.decorator_list and not all(isinstance(d, ast.Name) and d.id in ("staticmethod", *spec.decorators) for d in fn.decorator_list):
             self.bad(fn, "decorated function")
         a = fn.args
@@ -748,6 +862,8 @@ class Translator:
             # keyword arguments (static = {"kwargs": False}: `if kwargs:` is then decided)
             self.bad(fn, "**kwargs (not restricted to the empty case by the signature spec)")
         pynames = [x.arg for x in a.posonlyargs] + [x.arg for x in a.args]
+        if is_method and any(isinstance(d, ast.Name) and d.id == "staticmethod" for d in fn.decorator_list):
+            is_method = False  # a static method has no receiver
         if is_method:
             if not pynames or pynames[0] != "self":
                 self.bad(fn, "method without self")
@@ -1360,10 +1476,14 @@ class Translator:
     def value_or(self, n, env) -> E:
         """`a or b or c` as a value, all operands of one plain type: the first true one, else the last"""
         xs = [self.expr(v, env) for v in n.values]
+        # (the declared type of operands narrowed to None: `d or ()` is an empty `d`-like collection)
+        was_ = [env[x.var].was.args[0] for x in xs[:-1] if x.ty == NONE and x.var in env and getattr(env[x.var], "was", None) is not None and env[x.var].was.kind == "Opt"]
         xs = [x for x in xs[:-1] if x.ty != NONE] + xs[-1:]  # a None operand is false: skipped
-        tys = [x.ty for x in xs if x.ty.kind != "Tup0"]
+        tys = [x.ty for x in xs if x.ty.kind != "Tup0"] + was_
         if tys and xs[-1].ty.kind == "Tup0":
             xs[-1] = self.coerce(xs[-1], tys[0], n)  # `xs or ()`: the empty collection
+            if len(xs) == 1 and xs[0].lean == "[]":
+                xs[0] = E(f"([] : {lean_ty(tys[0])})", tys[0], None, True)  # (alone: the type is not implied by another operand)
         xs = [self.plain(x, n) for x in xs]
         if len(xs) == 1:
             return xs[0]
@@ -1377,6 +1497,17 @@ class Translator:
         return cur
 
     def compare(self, n, env) -> E:
+        if self.spec.canon_find and len(n.ops) == 1 and isinstance(n.left, ast.Call) and isinstance(n.left.func, ast.Attribute) and n.left.func.attr == "find" and len(n.left.args) == 1 and not n.left.keywords:
+            r_ = n.comparators[0]
+            v_ = r_.value if isinstance(r_, ast.Constant) else (-r_.operand.value if isinstance(r_, ast.UnaryOp) and isinstance(r_.op, ast.USub) and isinstance(r_.operand, ast.Constant) else None)
+            key_ = (type(n.ops[0]).__name__, v_)
+            pos_ = {("GtE", 0): True, ("NotEq", -1): True, ("Gt", -1): True, ("Eq", -1): False, ("Lt", 0): False}.get(key_)
+            if pos_ is not None:
+                # `s.find(x) >= 0` is `x in s` (and `== -1` is `x not in s`): one spelling
+                new = ast.Compare(left=n.left.args[0], ops=[ast.In() if pos_ else ast.NotIn()], comparators=[n.left.func.value])
+                ast.copy_location(new, n)
+                ast.fix_missing_locations(new)
+                return self.compare(new, env)
         operands = [n.left] + list(n.comparators)
         vals = [None] * len(operands)
 
@@ -1430,7 +1561,8 @@ class Translator:
                 fn_ = self.spec.in_ops[dotted(rn)]
                 if fn_.raises:
                     self.bad(node, "`in` on an object whose __contains__ can raise")
-                r = self.apply(fn_, [ln], node, env)
+                # (a two-parameter entry takes the container itself first: no Lean name in the Spec)
+                r = self.apply(fn_, [rn, ln] if len(fn_.params) == 2 else [ln], node, env)
                 return self.negate(r) if neg else r
             a = val(i)
             if isinstance(rn, (ast.Tuple, ast.Set, ast.List)):
@@ -1518,6 +1650,9 @@ class Translator:
             # values that occur - the assumption recorded at Spec.orders)
             abs_ty = a.ty if a.ty.kind == "Abs" else b.ty
             a, b = self.coerce(a, abs_ty, node), self.coerce(b, abs_ty, node)
+            if abs_ty.args[0] in self.spec.eq_fns:
+                # `==` of this abstract type is a parameter of the translation (e.g. Python's `1 == 1.0`)
+                return E(f"{self.spec.eq_fns[abs_ty.args[0]]} {P(a)} {P(b)}", BOOL)
             if abs_ty.args[0] in self.spec.eq_types:
                 # an enumeration (a Lean inductive with decidable equality): `==` is the identity of members
                 return E(f"{P(a)} == {P(b)}", BOOL)
@@ -1555,6 +1690,12 @@ class Translator:
             return E(" ++ ".join(parts), BYTES)
         a = self.plain(self.expr(n.left, env), n.left)
         b = self.plain(self.expr(n.right, env), n.right)
+        if isinstance(n.op, (ast.Add, ast.Sub)) and {a.ty, b.ty} == {INT, BOOL}:
+            # a bool used as a number: True is 1, False is 0
+            if a.ty == BOOL:
+                a = E(f"(if {a.lean} then 1 else 0)", INT, None, True)
+            else:
+                b = E(f"(if {b.lean} then 1 else 0)", INT, None, True)
         if a.ty == INT and b.ty == INT:
             if isinstance(n.op, ast.Add):
                 return E(f"{P(a)} + {P(b)}", INT)
@@ -1820,6 +1961,33 @@ class Translator:
 
     # ---- raising calls inside a statement --------------------------------
 
+    def canon_locals(self, names):
+        """loop state that is not object state, in the order in which the function first assigns the
+        locals (not in the order the loop body happens to touch them)"""
+        if not self.spec.canon_loop_order:
+            return names
+        lo = getattr(self, "local_order", [])
+        return sorted(names, key=lambda nm: (lo.index(nm) if nm in lo else len(lo), names.index(nm)))
+
+    def effects_for(self, node):
+        """the declared effect of this statement / expression statement's call: [(key, text)] or None.
+        Keys are source texts, possibly with metavariables (`$x`): the texts of the effect then use
+        the same metavariables"""
+        if not self.spec.effects:
+            return None
+        try:
+            src = ast.unparse(node)
+        except Exception:  # noqa: BLE001
+            return None
+        if src in self.spec.effects:
+            return list(self.spec.effects[src])
+        for key_, items in self.spec.effects.items():
+            if "$" in key_:
+                b = template_match(key_, node)
+                if b is not None:
+                    return [(template_subst(k2, b), template_subst(t2, b)) for k2, t2 in items]
+        return None
+
     def static_value(self, n):
         """the truth value the signature spec assigns to this exact source text, or None"""
         if not self.spec.static or not isinstance(n, ast.expr):
@@ -1828,7 +1996,12 @@ class Translator:
             src = ast.unparse(n)
         except Exception:  # noqa: BLE001
             return None
-        return bool(self.spec.static[src]) if src in self.spec.static else None
+        if src in self.spec.static:
+            return bool(self.spec.static[src])
+        for key_, v_ in self.spec.static.items():
+            if "$" in key_ and template_match(key_, n) is not None:
+                return bool(v_)
+        return None
 
     def raising_calls(self, expr_node, env):
         """raising calls inside an expression, with a flag telling whether the call sits under a
@@ -1862,6 +2035,10 @@ class Translator:
                 try:
                     res = self.resolve_call(x, env)
                 except (NeedUnwrap, NoneUsed):
+                    if lazy:
+                        # under a short-circuiting operator the receiver may be guarded by an operand
+                        # before it (`x is not None and x.m()`): decided when the expression is translated
+                        return
                     raise
                 if res is not None:
                     # descend into the arguments the call was resolved to (a pattern such as
@@ -1949,12 +2126,13 @@ class Translator:
                 src_ = ast.unparse(s)
             except Exception:  # noqa: BLE001
                 src_ = None
-            if src_ == self.spec.stop_at[0]:
-                r_ = ast.Return(value=ast.parse(self.spec.stop_at[1], mode="eval").body)
+            b_ = template_match(self.spec.stop_at[0], s) if src_ is not None else None
+            if b_ is not None:
+                r_ = ast.Return(value=ast.parse(template_subst(self.spec.stop_at[1], b_), mode="eval").body)
                 ast.copy_location(r_, s)
                 ast.fix_missing_locations(r_)
                 r_._py2lean_stop = True
-                r_._py2lean_comment = f"{self.srcline(s)}   [the translation stops here and answers {self.spec.stop_at[1]}]"
+                r_._py2lean_comment = f"{self.srcline(s)}   [the translation stops here and answers {template_subst(self.spec.stop_at[1], b_)}]"
                 return self.stmt(r_, env, loop, lambda e_, l_: self.bad(s, "internal: statements after the stop"))
         if isinstance(s, (ast.For, ast.While)):
             s._py2lean_rest = rest
@@ -2006,7 +2184,7 @@ class Translator:
             scrut = env[nm].lean
         v = env[nm]
         env_none = dict(env)
-        env_none[nm] = Var(v.lean, NONE)
+        env_none[nm] = Var(v.lean, NONE, was=v.ty)
         env_some = dict(env)
         env_some[nm] = Var(v.lean, v.ty.args[0])
         a = self.with_splits(node, test_nodes, env_none, loop, body_fn, bool_ctx)
@@ -2065,12 +2243,12 @@ class Translator:
                         self.bad(s, "assignment target that is not a local name / state attribute")
                     return self.comment(s) + self.stateful_call(s, s.value, res0, env, loop, None, lambda e, env2: self.bind(tgt_, e, s, env2, loop, k))
         # --- effects of abstract collaborators (spec.effects)
-        if isinstance(s, (ast.Expr, ast.Assign)) and self.spec.effects and not (isinstance(s, ast.Assign) and isinstance(s.targets[0], ast.Name) and s.targets[0].id.startswith("<key>")):
+        if isinstance(s, (ast.Expr, ast.Assign, ast.Delete)) and self.spec.effects and not (isinstance(s, ast.Assign) and isinstance(s.targets[0], ast.Name) and s.targets[0].id.startswith("<key>")):
             # (an assignment to an attribute / item of a collaborator can be declared an effect too)
-            src = ast.unparse(s.value) if isinstance(s, ast.Expr) else ast.unparse(s)
-            if src in self.spec.effects:
+            eff_ = self.effects_for(s.value if isinstance(s, ast.Expr) else s)
+            if eff_ is not None:
                 stmts = []
-                for key, text in self.spec.effects[src]:
+                for key, text in eff_:
                     a = ast.Assign(targets=[ast.Name(id="<key>" + key, ctx=ast.Store())], value=ast.parse(text, mode="eval").body)
                     ast.copy_location(a, s)
                     ast.fix_missing_locations(a)
@@ -2474,6 +2652,10 @@ class Translator:
                 elif nm in env and env[nm].ty.kind == "List":
                     ty = env[nm].ty
                     e = self.coerce(e, ty, s)
+                elif self.result_ty.kind == "List" and nm in getattr(self, "returned_names", ()):
+                    # the local is what the function returns (`rv = []; ...; return rv`): the result type
+                    ty = self.result_ty
+                    e = self.coerce(e, ty, s)
                 else:
                     self.bad(s, "empty list literal of unknown element type (declare it in the spec via `locals`)")
             if nm in env and env[nm].ty != ty:
@@ -2789,12 +2971,12 @@ class Translator:
                             if key_ not in assigned:
                                 assigned.append(key_)
                 if isinstance(x, ast.Expr):
-                    for key_, _ in self.spec.effects.get(ast.unparse(x.value), []):
+                    for key_, _ in self.effects_for(x.value) or []:
                         if key_ not in assigned:
                             assigned.append(key_)
-                if isinstance(x, ast.Assign) and self.spec.effects:
-                    # an assignment statement declared an effect (`self.headers["X"] = v`, `self.status_code = n`)
-                    for key_, _ in self.spec.effects.get(ast.unparse(x), []):
+                if isinstance(x, (ast.Assign, ast.Delete)) and self.spec.effects:
+                    # an assignment / del statement declared an effect (`self.headers["X"] = v`, `self.status_code = n`)
+                    for key_, _ in self.effects_for(x) or []:
                         if key_ not in assigned:
                             assigned.append(key_)
         return assigned
@@ -3188,7 +3370,7 @@ class Translator:
             assigned = self.modified_names(s.body, env1)
             state = [nm for nm in assigned if nm in env1]
             order = {key_: i for i, key_ in enumerate(self.state_keys())}
-            state = sorted([nm for nm in state if nm in order], key=lambda nm: order[nm]) + [nm for nm in state if nm not in order]
+            state = sorted([nm for nm in state if nm in order], key=lambda nm: order[nm]) + self.canon_locals([nm for nm in state if nm not in order])
             for nm in state:
                 if env1[nm].ty.kind in ("None", "Opt"):
                     self.bad(s, f"loop state {nm!r} is None / Optional before the loop")
@@ -3393,12 +3575,11 @@ class Translator:
             for st_ in s.body:
                 for x in ast.walk(st_):
                     if isinstance(x, ast.Expr):
-                        src_ = ast.unparse(x.value)
-                        for key_, _ in self.spec.effects.get(src_, []):
+                        for key_, _ in self.effects_for(x.value) or []:
                             if key_ not in assigned:
                                 assigned.append(key_)
-                    if isinstance(x, ast.Assign) and self.spec.effects:
-                        for key_, _ in self.spec.effects.get(ast.unparse(x), []):
+                    if isinstance(x, (ast.Assign, ast.Delete)) and self.spec.effects:
+                        for key_, _ in self.effects_for(x) or []:
                             if key_ not in assigned:
                                 assigned.append(key_)
                     if isinstance(x, ast.Call):
@@ -3415,7 +3596,7 @@ class Translator:
             # attributes of the object first, in the order the spec lists them (so that swapping two
             # independent statements of the body does not permute the loop's arguments)
             order = {key_: i for i, key_ in enumerate(self.state_keys())}
-            state = sorted([nm for nm in state if nm in order], key=lambda nm: order[nm]) + [nm for nm in state if nm not in order]
+            state = sorted([nm for nm in state if nm in order], key=lambda nm: order[nm]) + self.canon_locals([nm for nm in state if nm not in order])
             for nm in state:
                 if env1[nm].ty == NONE:
                     self.bad(s, f"loop state {nm!r} is None before the loop: its type inside the loop is unknown")
